@@ -268,3 +268,41 @@ def fock_spec(natoms, P, H, pairs, w, onec):
                     acc = acc + P[l][s] * (j - Fraction(1, 2) * kx)
             F[m][v] = F[m][v] + acc
     return F
+
+
+def fock_spec_uhf(natoms, Pa, Pb, H, pairs, w, onec):
+    """Unrestricted NDDO Fock matrices: F^s = h + J[P^a + P^b] - K[P^s]  (exchange only with the same spin, factor 1)."""
+    n = 4 * natoms
+    two = {}
+    for k, (A, B) in enumerate(pairs):
+        two[(A, B)] = unpack_two_center(w[k])
+
+    def eri(m, v, l, s):
+        A, B, C, D = m // 4, v // 4, l // 4, s // 4
+        if A != B or C != D:
+            return 0
+        if A == C:
+            return one_center_integral(m % 4, v % 4, l % 4, s % 4, *onec[A])
+        if (A, C) in two:
+            return two[(A, C)](m % 4, v % 4, l % 4, s % 4)
+        if (C, A) in two:
+            return two[(C, A)](l % 4, s % 4, m % 4, v % 4)
+        return 0
+
+    out = []
+    for Ps in (Pa, Pb):
+        F = [[H[i][j] for j in range(n)] for i in range(n)]
+        for m in range(n):
+            for v in range(n):
+                acc = 0
+                for l in range(n):
+                    for s in range(n):
+                        j = eri(m, v, l, s)
+                        kx = eri(m, l, v, s)
+                        if not _is0(j):
+                            acc = acc + (Pa[l][s] + Pb[l][s]) * j
+                        if not _is0(kx):
+                            acc = acc - Ps[l][s] * kx
+                F[m][v] = F[m][v] + acc
+        out.append(F)
+    return out
